@@ -43,8 +43,13 @@ const (
 	avoidThis     = "this_assign"
 	avoidBreakIf  = "break_in_if"
 	avoidStrIndex = "str_index_oob"
-	avoidRepeat   = "array_repeat_range"
+	avoidIdxSlice = "index_then_slice"
+	avoidShared   = defsem.CornerSharedText // decided by the reference unless avoided: then refused, counted
+	avoidCompDef  = defsem.CornerCompRedef
+	avoidBigSum   = defsem.CornerBigSum
 )
+
+var genSwitches = []string{avoidThis, avoidBreakIf, avoidStrIndex, avoidIdxSlice, avoidShared}
 
 type Step struct {
 	Prog  *gen.Node `json:"prog"`
@@ -69,10 +74,11 @@ func (c *Case) sources() []string {
 // ---------------------------------------------------------------------------
 // features of a program that matter for signatures and classes
 
-// knownTags lists the open-finding features a program uses; they are appended to
-// every failure signature of the case so that an open finding's key matches only
-// cases that actually contain its feature.
-func knownTags(p *gen.Node) []string {
+// classTags lists the open-finding features a program uses.  A failure of a case that contains such a
+// feature is given the signature class:<features> (DESIGN §1.7: oracle disagreements of one root cause show
+// many symptoms, so they are keyed by the generator feature, which the generator avoids while the finding is
+// open).  Every tag is narrow: it names a syntactic shape no other part of the generator produces.
+func classTags(p *gen.Node) []string {
 	tags := map[string]bool{}
 	var walk func(n *gen.Node, loop int, inIf bool)
 	walk = func(n *gen.Node, loop int, inIf bool) {
@@ -86,10 +92,9 @@ func knownTags(p *gen.Node) []string {
 			if inIf && loop > 0 {
 				tags[avoidBreakIf] = true
 			}
-		case "idx":
-			// an index applied to something that may be a string (literal, template, +, slice, toStr …)
-			if mayBeString(n.Kids[0]) {
-				tags[avoidStrIndex] = true
+		case "slice", "setslice":
+			if gen.EndsInIndex(n.Kids[0]) {
+				tags[avoidIdxSlice] = true
 			}
 		}
 		switch n.K {
@@ -120,16 +125,6 @@ func knownTags(p *gen.Node) []string {
 	return out
 }
 
-func mayBeString(n *gen.Node) bool {
-	switch n.K {
-	case "str", "tmpl":
-		return true
-	case "arr", "range", "dict", "int", "flt":
-		return false
-	}
-	return true // variables, calls, operators: unknown statically
-}
-
 // nonTrivial: >= 2 statements and at least one of control flow, user function, computed value, container
 // mutation through an alias, template with a hole, ternary chain.
 func nonTrivial(p *gen.Node) bool {
@@ -156,8 +151,19 @@ const budgetText = "允许算力上限"
 const stackText = "执行栈到达溢出线"
 
 func refCfg(c vmx.Cfg, s *rt.Section) defsem.Config {
-	return defsem.Config{IgnoreDiv0: c.IgnoreDiv0, Mode: c.Mode, Fate: c.Fate}
+	cfg := defsem.Config{IgnoreDiv0: c.IgnoreDiv0, Mode: c.Mode, Fate: c.Fate, Refuse: map[string]bool{}}
+	// corners of open findings that only the reference can recognise (they depend on run-time
+	// aliasing): refused while the finding is open; the exclusion is counted when one is met
+	for _, corner := range []string{avoidShared, avoidCompDef, avoidBigSum} {
+		if avoidOn != nil && avoidOn(corner) {
+			cfg.Refuse[corner] = true
+		}
+	}
+	return cfg
 }
+
+// avoidOn is the run's set of avoid switches (nil during replay: a probe must show its finding).
+var avoidOn func(string) bool
 
 // srcOf builds the lookup "text this setc expression / func body was written as" from the printer's spans.
 func srcOf(src string, spans []gen.Span) func(*gen.Node) string {
@@ -261,7 +267,7 @@ func checkCase(c Case, s *rt.Section) *rt.Failure {
 	tagSet := map[string]bool{}
 	var outs []stepOut
 	for i, st := range c.Steps {
-		for _, t := range knownTags(st.Prog) {
+		for _, t := range classTags(st.Prog) {
 			tagSet[t] = true
 		}
 		var tags []string
@@ -269,10 +275,7 @@ func checkCase(c Case, s *rt.Section) *rt.Failure {
 			tags = append(tags, t)
 		}
 		sort.Strings(tags)
-		suffix := ""
-		if len(tags) > 0 {
-			suffix = "|" + strings.Join(tags, ",")
-		}
+
 		z := &gen.Noise{Vals: st.Noise}
 		src, spans := gen.PrintNoisy(st.Prog, z)
 		in.SrcOf = srcOf(src, spans)
@@ -281,18 +284,28 @@ func checkCase(c Case, s *rt.Section) *rt.Failure {
 		cur := &outs[len(outs)-1]
 		mkFail := func(oracle, sig, observed, expected string) *rt.Failure {
 			ob, _ := json.Marshal(outs)
-			return s.NewFailure(oracle, sig+suffix, c, fmt.Sprintf("step %d: %s\nsteps: %s", i, observed, ob), expected)
+			all := append([]string(nil), tags...)
+			for ev := range in.Events {
+				all = append(all, ev)
+			}
+			sort.Strings(all)
+			if len(all) > 0 {
+				sig = "class:" + strings.Join(all, ",")
+			}
+			return s.NewFailure(oracle, sig, c, fmt.Sprintf("step %d: %s\nsteps: %s", i, observed, ob), expected)
 		}
 
 		ref, rerr := in.Run(st.Prog)
 		if u, ok := rerr.(*defsem.Unsupported); ok {
+			if u.Corner != "" {
+				s.Exclude(u.Corner)
+			}
 			s.Discard("ref: " + unsupportedClass(u.Why))
 			return nil
 		}
 		var verr error
 		pi := rt.Guard(func() { verr = vm.Run(src) })
 		if pi != nil {
-			suffix = "" // a panic is identified by its site alone
 			f := mkFail("no-panic", pi.Sig(), "panic: "+pi.Value, "a value or an error")
 			f.Stack = pi.Stack
 			return f
@@ -346,6 +359,9 @@ func checkCase(c Case, s *rt.Section) *rt.Failure {
 			s.Class("step:ok")
 		}
 	}
+	for ev := range in.Events {
+		s.Class("corner-decided:" + ev)
+	}
 	return nil
 }
 
@@ -395,6 +411,7 @@ func drawCfg(t *rapid.T) vmx.Cfg {
 func seqOpts(cfg vmx.Cfg, s *rt.Section, thorough bool) gen.Opts {
 	o := gen.DefaultOpts()
 	o.Dice = true
+	o.Extra = true
 	o.Fate = cfg.Fate
 	// CoC / WoD / DC terms are not part of the reference (their min/max-mode value is C15's and C04's subject)
 	o.CoC, o.WoD, o.DC = false, false, false
@@ -405,15 +422,17 @@ func seqOpts(cfg vmx.Cfg, s *rt.Section, thorough bool) gen.Opts {
 		o.MaxDepth = 4
 	}
 	// open findings: generate without the feature (one exclusion counted per case)
-	if s.Avoid(avoidThis) {
-		o.ThisAssign = false
+	av := map[string]bool{}
+	for _, name := range genSwitches {
+		if s.Avoid(name) {
+			av[name] = true
+		}
 	}
-	if s.Avoid(avoidBreakIf) {
-		o.BreakInIf = false
-	}
-	if s.Avoid(avoidStrIndex) {
-		o.StrIndexOOB = false
-	}
+	o.ThisAssign = !av[avoidThis]
+	o.BreakInIf = !av[avoidBreakIf]
+	o.StrIndexOOB = !av[avoidStrIndex]
+	o.IndexThenSlice = !av[avoidIdxSlice]
+	o.Avoid = func(name string) bool { return av[name] }
 	return o
 }
 
@@ -465,8 +484,9 @@ func TestProp(t *testing.T) {
 	run := rt.Begin(t, "C02")
 	defer run.Finish()
 	thorough := run.Env.Thorough()
+	avoidOn = run.AvoidOn
 
-	run.Check("seq", 24000, 400000,
+	run.Check("seq", 20000, 200000,
 		"sequences of 1..4 generated programs (<= 7 statements + nested blocks, depth <= 3; thorough 10 / 4) on one VM, printed with rapid-drawn whitespace/parenthesis noise, min|max dice mode x IgnoreDiv0 x family flags, compared with the reference interpreter after every program (error<=>error, whole text consumed, Ret, Attrs); non-trivial = some program has >= 2 statements and uses control flow, a user function, a computed value, mutation through an alias, a template hole or a ternary chain; distinct by the printed sources",
 		func(t *rapid.T, s *rt.Section) {
 			c := drawSeq(t, s, thorough)
@@ -481,7 +501,7 @@ func TestProp(t *testing.T) {
 			s.Report(t, checkCase(c, s))
 		})
 
-	run.Check("prec", 16000, 300000,
+	run.Check("prec", 12000, 300000,
 		"one operator expression of depth 2..4 (thorough ..6) over + - * / % ** ^ ?? || && | & comparisons, unary - +, ternary and else-less chains, leaves small ints / floats / strings / null / true / false / an undefined name, ASCII and full-width spellings, printed with the minimal parentheses of the published grammar plus rapid-drawn redundant parentheses and whitespace, as a statement, an assignment or an array element; reference value computed on the tree; non-trivial = at least three operators of at least two kinds; distinct by printed source",
 		func(t *rapid.T, s *rt.Section) {
 			c := drawPrec(t, thorough)
@@ -510,9 +530,6 @@ func TestProp(t *testing.T) {
 			failed := false
 			opsCases(thorough, func(i int, c Case) {
 				if i%run.Env.NShards != run.Env.Shard || failed {
-					return
-				}
-				if hugeRepeat(c.Steps[0].Prog.Kids[0]) && s.Avoid(avoidRepeat) {
 					return
 				}
 				s.Eval()
@@ -711,17 +728,6 @@ func opsCases(thorough bool, visit func(i int, c Case)) int {
 		}
 	}
 	return i
-}
-
-// hugeRepeat: array * int whose element count leaves the int range (open finding C02-F03).
-func hugeRepeat(e *gen.Node) bool {
-	if e.K != "bin" || e.S != "*" {
-		return false
-	}
-	l, r := e.Kids[0], e.Kids[1]
-	big := func(n *gen.Node) bool { return n.K == "int" && n.I >= 1<<61 }
-	nonEmptyArr := func(n *gen.Node) bool { return n.K == "arr" && len(n.Kids) > 0 }
-	return (big(l) && nonEmptyArr(r)) || (nonEmptyArr(l) && big(r))
 }
 
 func TestReplay(t *testing.T) {
